@@ -280,6 +280,7 @@ pub const CASE_WALL_LIMIT: Duration = Duration::from_secs(90);
 
 pub fn run_shard(prop: &Property, tier: Tier, seed: u64, spec: &ShardSpec) -> Ctx {
     monitors::install_panic_hook();
+    monitors::install_logger();
     let mut ctx = Ctx::new(prop.id, tier, seed);
     ctx.verbose = spec.verbose;
     let gens = (prop.gens)(tier);
@@ -347,6 +348,14 @@ pub fn run_shard(prop: &Property, tier: Tier, seed: u64, spec: &ShardSpec) -> Ct
             }
             started.store(t0.elapsed().as_millis() as u64 + 1, Ordering::Relaxed);
             let mut rng = Rng::for_case(case_seed, gen.name, index);
+            // ambient logging: in about half of the cases (a function of the index, so that a
+            // replay sees the same) a logger accepts every level, i.e. the arguments of the
+            // library's log statements are evaluated and formatted
+            let logging = index.wrapping_mul(0x9E37_79B9_7F4A_7C15) >> 63 == 0;
+            monitors::set_logging(logging);
+            if logging {
+                ctx.count("cases_with_logging_enabled", 1);
+            }
             let res = monitors::catch(|| (gen.run)(&mut ctx, &mut rng, index));
             started.store(0, Ordering::Relaxed);
             ctx.evaluations += 1;
@@ -373,6 +382,11 @@ pub fn run_shard(prop: &Property, tier: Tier, seed: u64, spec: &ShardSpec) -> Ct
                 index += spec.nshards;
             }
         }
+    }
+    monitors::set_logging(false);
+    let recs = monitors::log_records();
+    if recs > 0 {
+        ctx.count("library_log_records_formatted", recs);
     }
     ctx
 }
